@@ -16,6 +16,7 @@ CONSTANTS
   UploadRounds = {8, 40}
   UploadSizes = {1, 16385}
   MaxBurst = 1
+  DynChoices = {FALSE}
   Paths = FALSE
 INIT Init
 NEXT Next
